@@ -44,8 +44,40 @@ class Check:
         return ()
 
     # -- execution -------------------------------------------------------
+    def record_single(self, groups):
+        """all groups, in order, through ONE harness process (reproduction of a verdict that depends on what the same
+        process handled before: process-global state of the code under test)"""
+        flat = [c for g in groups for c in g]
+        evs = core.run_harness(self.family, flat, self.harness_timeout, self.harness_args())
+        out, pos = [], 0
+        for g in groups:
+            k = self.events_per_group(g)
+            out.append(evs[pos:pos + k])
+            pos += k
+        if pos != len(evs):
+            raise Infra("event count mismatch in family %s: %d != %d" % (self.family, pos, len(evs)))
+        return out
+
+    def process_history(self, groups, gi):
+        """indices of the groups that the harness process of group gi handled before it (mirrors record())"""
+        if getattr(self, "single_process", False):
+            return list(range(gi))
+        if self.stateful():
+            n = max(1, min(core.NCPU, len(groups)))
+        else:
+            ncases = sum(len(g) for g in groups)
+            if ncases < 64:
+                n = 1
+            elif all(len(g) == 1 for g in groups):
+                n = core.NCPU
+            else:
+                return None
+        return list(range(gi % n, gi, n))
+
     def record(self, groups):
         """run the real code; returns list of event lists (one per group)"""
+        if getattr(self, "single_process", False) and len(groups) > 1:
+            return self.record_single(groups)
         flat, idx = [], []
         for gi, g in enumerate(groups):
             for c in g:
@@ -113,7 +145,8 @@ def run_check(check, tier, seed, replay=None):
         core.build_harness()
         if replay:
             payload = json.load(open(replay))
-            groups = [payload["group"]]
+            groups = list(payload.get("history") or []) + [payload["group"]]
+            check.single_process = len(groups) > 1      # the verdict depends on what the same process handled before
         else:
             groups = check.groups(tier, seed)
             lim = int(os.environ.get('VERIF_LIMIT', '0') or 0)
@@ -162,10 +195,26 @@ def run_check(check, tier, seed, replay=None):
             ev2 = check.record([g])
             bad2, _ = check.validate(ev2, pid + "-repro")
             bad2 = check.filter_bad(bad2)
+            history = []
             if not any(x["why"] == b["why"] and x["pos"] == b["pos"] for x in bad2):
-                raise Infra("counterexample did not reproduce: " + core.trim(b))
+                # not reproduced on a fresh process: does it depend on what the same process handled before?
+                hist = check.process_history(groups, gi)
+                if hist:
+                    hg = [groups[k] for k in hist] + [g]
+                    was = getattr(check, "single_process", False)
+                    check.single_process = True
+                    try:
+                        ev3 = check.record(hg)
+                    finally:
+                        check.single_process = was
+                    bad3, _ = check.validate(ev3, pid + "-repro")
+                    bad3 = check.filter_bad(bad3)
+                    if any(x["why"] == b["why"] and x["pos"] == b["pos"] and x["group"] == len(hg) - 1 for x in bad3):
+                        history = hg[:-1]
+                if not history:
+                    raise Infra("counterexample did not reproduce: " + core.trim(b))
             path = core.save_replay(pid, {"property": pid, "family": check.family, "module": check.module,
-                                          "tier": tier, "seed": seed, "group": g, "verdict": b})
+                                          "tier": tier, "seed": seed, "group": g, "history": history, "verdict": b})
             violations.append((b, path))
             reported += 1
         for kf in known.values():
